@@ -31,6 +31,9 @@ WU = "netbuf/netbuf_write.c"
 RU = "netbuf/netbuf_read.c"
 
 
+TRANSPORT = ("network/network_read.c", "network/network_write.c")
+
+
 def fld(n, name):
     return isinstance(n, tuple) and n[0] == "." and n[2] == name
 
@@ -296,6 +299,106 @@ def writer(prog, rep):
 
 
 # ---------------------------------------------------------------------------
+
+# ---- reader window: relational analysis (sa/poly.py) ------------------------------------------
+# callees that store the pointers they are given and do not write through them before returning (registrations, the
+# transport launch, libc copies into byte buffers, the allocator).  None stands for the SSL transport's function pointer,
+# which has network_read's contract.
+READER_QUIET = {"events_immediate_register", "events_immediate_cancel", "network_read", "network_read_cancel", "memmove", "memcpy", "malloc", "free", None}
+
+
+def reader_relational(prog, rep, u, wt, ls):
+    """The reader's window invariant 0 <= bufpos <= datalen <= buflen, 1 <= buflen, as an inductive invariant of
+    netbuf_read.c (assumed on entry of every function that takes the reader, proved at each of its exits, established by
+    the constructor), and under it, at both transport launches of netbuf_read_wait:
+      window   target == buf + datalen, capacity == buflen - datalen, minimum == len - (datalen - bufpos)   (as values)
+      nonzero  minimum >= 1 (hence capacity >= 1): the transport is never asked for zero bytes
+      fits     capacity >= minimum: the bytes still missing fit behind the data already buffered
+    decided by entailment in a linear-inequality domain, so temporaries, reordered statements and equivalent
+    spellings do not matter, and a weakened compaction or growth test does."""
+    from .. import poly
+    from ..poly import Lin
+
+    def setup(f, Rterm):
+        fl = lambda n: Lin.var((".", ("*", Rterm), n))
+        inv = [("<=", fl("bufpos"), fl("datalen")), ("<=", fl("datalen"), fl("buflen")), (">=", fl("buflen"), Lin.const(1))]
+        uns = {(".", ("*", Rterm), n) for n in ("bufpos", "datalen", "buflen")}
+        return fl, inv, uns
+
+    inl = {"netbuf_read_resize_buffer": u.func("netbuf_read_resize_buffer")}
+    # -- netbuf_read_wait
+    Rw = ("v", wt.params[0]["name"], wt.params[0]["id"])
+    fl, inv, uns = setup(wt, Rw)
+    A = poly.Analysis(wt, assume=inv, quiet=READER_QUIET, inline=inl, unsigned_terms=uns).run()
+    lenv = Lin.var(("v", wt.params[1]["name"], wt.params[1]["id"]))
+    for c, bi in ls:
+        st = A.state_before(c)
+        tgt, cap, mn = A.lin(c.arg(bi), st), A.lin(c.arg(bi + 1), st), A.lin(c.arg(bi + 2), st)
+        okw = tgt is not None and cap is not None and mn is not None
+        d = ""
+        if okw:
+            w1 = A.holds(st, "==", tgt, fl("buf") + fl("datalen"))
+            w2 = A.holds(st, "==", cap, fl("buflen") - fl("datalen"))
+            w3 = A.holds(st, "==", mn, lenv - fl("datalen") + fl("bufpos"))
+            okw = w1 and w2 and w3
+            d = "target == buf + datalen: %s; capacity == buflen - datalen: %s; minimum == len - (datalen - bufpos): %s" % (w1, w2, w3)
+        else:
+            d = "an argument is not a linear expression of the window fields: %s, %s, %s" % tuple(show(strip_ids(norm(c.arg(bi + k)))) for k in range(3))
+        rep.check(okw, "F4-window", "read launch window: %s" % c.text[:30], c.where,
+                  d + " (required on every path: &R->buf[R->datalen], R->buflen - R->datalen, R->bufpos + len - R->datalen, as values)",
+                  function=wt.name, construct="read-window")
+        if cap is not None and mn is not None:
+            nz = A.holds(st, ">=", mn, Lin.const(1)) and A.holds(st, ">=", cap, Lin.const(1))
+            rep.check(nz, "F3-nonzero", "read launch asks for at least one byte and offers at least one", c.where,
+                      "minimum >= 1 and capacity >= 1 must follow from the window tests on every path", function=wt.name, construct="read-nonzero")
+            fits = A.holds(st, ">=", cap, mn)
+            rep.check(fits, "F4-fits", "the bytes still missing fit behind the buffered data (capacity >= minimum)", c.where,
+                      "on some path to this launch buflen - datalen >= len - (datalen - bufpos) does not follow from the growth and compaction tests: "
+                      "the transport would be given a region smaller than the minimum it must fill (short region => spurious end-of-stream, zero region => abort)",
+                      function=wt.name, construct="read-fits")
+        hd = norm(c.arg(bi + 3)) == ("fn", "callback_read")
+        rep.check(hd, "F4-window", "read launch handler", c.where, "completion must go to callback_read", function=wt.name, construct="read-handler")
+    for r in wt.returns():
+        st = A.state_before(r)
+        rep.check(all(A.holds(st, op, a, b) for op, a, b in inv), "F4-inv", "netbuf_read_wait keeps 0 <= bufpos <= datalen <= buflen, buflen >= 1 (return at line %d)" % r.line, r.where,
+                  "the window invariant does not follow at this return", function=wt.name, construct="inv:wait:%s" % show(norm(r.kid(0))))
+    # -- netbuf_read_consume: the caller may consume only what is buffered (its assertion), the invariant follows
+    cs = u.func("netbuf_read_consume")
+    Rc = ("v", cs.params[0]["name"], cs.params[0]["id"])
+    flc, invc, unsc = setup(cs, Rc)
+    ln = Lin.var(("v", cs.params[1]["name"], cs.params[1]["id"]))
+    Ac = poly.Analysis(cs, assume=invc + [("<=", ln, flc("datalen") - flc("bufpos")), (">=", ln, Lin.const(0))], quiet=READER_QUIET, unsigned_terms=unsc).run()
+    ex = Ac.solver.IN.get(cs.exit)
+    rep.check(ex is not None and all(Ac.holds(ex, op, a, b) for op, a, b in invc), "F4-inv", "netbuf_read_consume(len <= datalen - bufpos) keeps the window invariant", cs.loc,
+              "", function=cs.name, construct="inv:consume")
+    # -- callback_read: the transport delivers at most the capacity it was given (C06 N5: minlen <= n <= buflen)
+    cb = u.func("callback_read")
+    rl = [e for e in cb.all_elems() if e.cls == "DeclStmt" and e.decls and e.decls[0]["name"] == "R"]
+    Rb = ("v", "R", rl[0].decls[0]["id"]) if rl else None
+    if Rb is None:
+        rep.defer_broken("F4-inv: callback_read has no local R")
+        return
+    flb, invb, unsb = setup(cb, Rb)
+    lr = Lin.var(("v", cb.params[1]["name"], cb.params[1]["id"]))
+    Ab = poly.Analysis(cb, assume=invb + [("<=", lr, flb("buflen") - flb("datalen"))], quiet=READER_QUIET, unsigned_terms=unsb).run()
+    n = 0
+    for r in cb.returns():
+        st = Ab.state_before(r)
+        n += 1
+        rep.check(all(Ab.holds(st, op, a, b) for op, a, b in invb), "F4-inv", "callback_read keeps the window invariant (return at line %d)" % r.line, r.where,
+                  "datalen may exceed buflen or fall below bufpos after the transport's answer is added", function=cb.name, construct="inv:callback_read:%d" % n)
+    # -- the constructor establishes it
+    ini = u.func("netbuf_read_init2") or u.func("netbuf_read_init")
+    got = {}
+    for e in ini.all_elems():
+        if e.is_assign and e.op == "=" and norm(e.kid(0))[0] == "." and norm(e.kid(0))[2] in ("bufpos", "datalen", "buflen"):
+            got[norm(e.kid(0))[2]] = norm(e.kid(1))
+    mal = [c for c in ini.calls("malloc") if got.get("buflen") is not None and norm(c.arg(0)) in (got["buflen"], (".", norm(c.arg(0))[1], "buflen") if norm(c.arg(0))[0] == "." else None)]
+    okc = got.get("bufpos") == ("c", 0) and got.get("datalen") == ("c", 0) and got.get("buflen", ("c", 0))[0] == "c" and got["buflen"][1] >= 1
+    rep.check(okc, "F4-inv", "the constructor starts with bufpos = datalen = 0 and a non-empty buffer", ini.loc, "%s" % {k: show(v) for k, v in got.items()},
+              function=ini.name, construct="inv:init")
+
+
 def reader(prog, rep):
     u = prog.unit(RU)
     wt = u.func("netbuf_read_wait")
@@ -310,25 +413,7 @@ def reader(prog, rep):
     ls = launches(wt)
     if len(ls) != 2:
         rep.defer_broken("F4: expected two sibling transport launches in netbuf_read_wait")
-    lenp = ("v", wt.params[1]["name"])
-    fx = Facts(wt).solve()
-    for c, bi in ls:
-        tgt = strip_ids(norm(c.arg(bi)))
-        cap = strip_ids(norm(c.arg(bi + 1)))
-        mn = strip_ids(norm(c.arg(bi + 2)))
-        ok = tgt == ("&", ("[]", BUF, DATALEN)) and cap == ("-", BUFLEN, DATALEN) and mn == ("-", ("+", BUFPOS, lenp), DATALEN)
-        rep.check(ok, "F4-window", "read launch window: %s" % c.text[:30], c.where,
-                  "target %s, capacity %s, minimum %s; required &R->buf[R->datalen], R->buflen - R->datalen, R->bufpos + len - R->datalen"
-                  % (show(tgt), show(cap), show(mn)), function=wt.name, construct="read-window")
-        nz = fx.holds_before(c, "!=", norm(c.arg(bi + 1)), ("c", 0))
-        if nz:
-            rep.ok("F3-nonzero", "read capacity non-zero", c.where)
-        else:
-            rep.unknown("F3-nonzero", "read capacity %s != 0" % show(cap), c.where,
-                        "follows from datalen - bufpos < len <= buflen - bufpos established by the three window adjustments; "
-                        "needs transitivity over differences, which the fact domain does not carry")
-        hd = norm(c.arg(bi + 3)) == ("fn", "callback_read")
-        rep.check(hd, "F4-window", "read launch handler", c.where, "completion must go to callback_read", function=wt.name, construct="read-handler")
+    reader_relational(prog, rep, u, wt, ls)
     # immediate success exactly when enough data is buffered
     imm = list(wt.calls("events_immediate_register"))
     ok = len(imm) == 1 and norm(imm[0].arg(0)) == ("fn", "callback_success")
@@ -453,7 +538,9 @@ def run(tier):
         "Decided on every path of netbuf_write.c and netbuf_read.c: the sticky failure flag and its guards (F1), in-flight buffer "
         "detachment and exact release (F2), the transport is never asked for zero bytes (F3; the reader's instance is an assumption), "
         "slot discipline of the three pending-operation fields (SLOT), the reader/writer window expressions handed to the transport, "
-        "to peek and to reserve (F4), the order of the compaction triple (F5), status routing and the immediate-success condition (F6). "
+        "to peek and to reserve (F4), the order of the compaction triple (F5), status routing and the immediate-success condition (F6); "
+        "and for the transport underneath (network_read.c, network_write.c) the would-block set, end-of-stream routing, transfer window and "
+        "the cumulative byte count reported on completion (N2, N3, N5, LIN; shared with C06). "
         "These are necessary conditions of stream preservation. Not decided: the refinement itself (that the concatenation of windows "
         "equals the stream for every history), growth arithmetic.",
         trusted=["network_read/network_write contracts (C06)", "STAILQ macros"])
@@ -466,7 +553,19 @@ def run(tier):
         writer(prog, rep)
         orphan_rule(prog, rep)
         reader(prog, rep)
+        # the transport below the buffers is part of this property's anchored code: a wrong byte count reported by
+        # network_write / network_read breaks the stream seen through netbuf (C06's rules, shared)
+        from . import c06
+        tprog = ir.Program(list(TRANSPORT), cfg)
+        rep.add_stats(tprog)
+        for up in TRANSPORT:
+            rec, rel, ctor, cancel = c06.UNITS[up]
+            L, kinds = c06.lin_rule(tprog, rep, up, rec, rel)
+            c06.n2_n3(tprog, rep, up, L)
+            c06.n5(tprog, rep, up, L)
     n = len(configs)
+    rep.require_min("N5", 10 * n)
+    rep.require_min("N2", 4 * n)
     rep.require_min("F1-launch", 2 * n)
     rep.require_min("F4-window", 8 * n)
     rep.require_min("SLOT", 5 * n)
